@@ -19,7 +19,9 @@ def _get_story_offsets(all_stories: Optional[List[Element]]) -> Optional[Dict[st
         t = 0
         for story in all_stories:
             story_offsets[story.find('storyID').text] = t
-            t += _get_story_duration(story)
+            duration = _get_story_duration(story)
+            # offsets are unknown from the first story without a duration onwards
+            t = None if t is None or duration is None else t + duration
         return story_offsets
 
 
@@ -31,6 +33,8 @@ def _get_story_duration(story_tag: Element) -> Optional[float]:
         metadata = story_tag.find('mosExternalMetadata')
         payload = metadata.find('mosPayload')
     except AttributeError:
+        return
+    if payload is None:
         return
 
     try:
